@@ -847,3 +847,129 @@ def impl_creator(case):
                                    'nd': None, 'pos': None}}}
         except Exception as ex:  # noqa
             return {'res': exc_obs(ex)}
+
+
+# ------------------------------------------------------------------------------------------ the real `run` command
+
+RUN_POOL = {'always': [True, False], 'continue': [True, False], 'single': [True, False], 'verbosity': [0, 1, 2],
+            'num_process': [0, 1, 2], 'par_type': ['thread', 'process']}
+_run_spec_cache = {}
+
+
+def run_spec():
+    """option table of the real `doit run` with a ModuleTaskLoader (introspected)"""
+    from doit.cmd_run import Run
+    from doit.cmd_base import ModuleTaskLoader
+    from doit.plugin import PluginDict
+    key = id(Run)
+    if key not in _run_spec_cache:
+        opts = Run(task_loader=ModuleTaskLoader({}), config={}, cmds=PluginDict()).get_options()
+        for o in opts:
+            if isinstance(canon_val(o.default), dict):
+                o.default = None
+        _run_spec_cache[key] = spec_of_cmdoptions(opts)
+    return _run_spec_cache[key]
+
+
+def _rr_mark(logfile, name, parent_pid, fail=False, marks=False):
+    """action of the probe tasks (module level: picklable for the process runner)"""
+    import threading
+    import time
+    here = 'serial'
+    if os.getpid() != parent_pid:
+        here = 'process'
+    elif threading.current_thread() is not threading.main_thread():
+        here = 'thread'
+    if fail and here != 'serial':
+        time.sleep(0.25)        # let the tasks selected before it start first
+    fd = os.open(logfile, os.O_WRONLY | os.O_APPEND | os.O_CREAT)
+    os.write(fd, ('%s %s\n' % (name, here)).encode())
+    os.close(fd)
+    if marks:
+        sys.stdout.write('OUTMARK\n')
+        sys.stderr.write('ERRMARK\n')
+    return not fail
+
+
+def run_behaviour(vals):
+    """what `doit run t u a_fail z` must do for resolved option values"""
+    v = dict(vals)
+    verb = v.get('verbosity')
+    return {'continue': bool(v.get('continue')), 'single': bool(v.get('single')), 'always': bool(v.get('always')),
+            'verbosity': 1 if verb is None else verb,
+            'mode': 'serial' if not v.get('num_process') else v.get('par_type')}
+
+
+def impl_realrun(case, workdir):
+    """DoitMain.run(['run'] + options + ['t','u','a_fail','z']) on five probe tasks; the resolved values of
+    continue / single / always / verbosity / num_process / par_type are read off what the run does"""
+    from doit.doit_cmd import DoitMain
+    from doit.cmd_base import ModuleTaskLoader
+    log = os.path.join(workdir, 'rr.log')
+    pid = os.getpid()
+    # the harness worker is a daemonic pool process; doit's process runner must be allowed to start children
+    import multiprocessing
+    multiprocessing.current_process()._config['daemon'] = False
+
+    def mk(name, **kw):
+        extra = dict(kw)
+        marks = extra.pop('marks', False)
+        fail = extra.pop('fail', False)
+
+        def creator():
+            d = {'actions': [(_rr_mark, [log, name, pid, fail, marks])]}
+            d.update(extra)
+            return d
+        return creator
+
+    ns = {'task_d': mk('d'), 'task_t': mk('t', task_dep=['d'], marks=True), 'task_u': mk('u', uptodate=[True]),
+          'task_a_fail': mk('a_fail', fail=True), 'task_z': mk('z'),
+          'DOIT_CONFIG': dict([(k, v) for k, v in case['dodo']] + [('reporter', 'zero')])}
+    old = os.getcwd()
+    os.chdir(workdir)
+    err, out = io.StringIO(), io.StringIO()
+    try:
+        for f in os.listdir(workdir):
+            os.remove(os.path.join(workdir, f))
+        kw = {'config_filenames': ()}
+        mode = case.get('ini_mode', 'api')
+        if mode == 'file':
+            with open('doit.cfg', 'w') as f:
+                if case['glob']:
+                    f.write('[GLOBAL]\n' + ''.join('%s = %s\n' % (k, c['raw']) for k, c in case['glob']))
+                f.write('[run]\n' + ''.join('%s = %s\n' % (k, c['raw']) for k, c in case['ini']))
+            kw = {'config_filenames': ('doit.cfg',)}
+        elif mode == 'toml':
+            with open('pyproject.toml', 'w') as f:
+                f.write('[tool.doit]\n' + ''.join('%s = %s\n' % (k, _toml_value(c)) for k, c in case['glob']))
+                f.write('[tool.doit.commands.run]\n' + ''.join('%s = %s\n' % (k, _toml_value(c)) for k, c in case['ini']))
+            kw = {'config_filenames': ('pyproject.toml',)}
+        else:
+            kw['extra_config'] = {'run': cfg_py(case['ini']), 'GLOBAL': cfg_py(case['glob'])}
+        with environ(case['env']), contextlib.redirect_stderr(err), contextlib.redirect_stdout(out):
+            try:
+                code = DoitMain(task_loader=ModuleTaskLoader(ns), **kw).run(['run'] + list(case['argv']))
+            except BaseException as ex:  # noqa
+                return {'res': {'err': 'crash', 'exc': type(ex).__name__}}
+        lines = []
+        if os.path.exists(log):
+            with open(log) as f:
+                lines = [l.split() for l in f.read().split('\n') if l.strip()]
+    finally:
+        os.chdir(old)
+    text = err.getvalue()
+    ran = [l[0] for l in lines]
+    where = dict((l[0], l[1]) for l in lines)
+    if code == 3 and 't' not in ran:
+        if text.startswith('ERROR:') and 'Traceback' not in text:
+            return {'res': {'err': classify_error(text)}, 'exit': code}
+        return {'res': {'err': 'crash', 'exc': text.strip().split('\n')[-1][:80]}, 'exit': code}
+    if 't' not in ran:
+        return {'res': {'err': 'crash', 'exc': 'task t did not run (exit %s): %s' % (code, text.strip().split('\n')[-1][:60])},
+                'exit': code, 'ran': ran}
+    mode_seen = where['t']
+    beh = {'single': 'd' not in ran, 'always': 'u' in ran, 'mode': mode_seen,
+           'continue': ('z' in ran) if mode_seen == 'serial' else None,
+           'verbosity': None if mode_seen == 'process' else
+           (2 if 'OUTMARK' in out.getvalue() else 1 if 'ERRMARK' in text else 0)}
+    return {'res': {'ok': {'behaviour': beh}}, 'exit': code, 'ran': ran}
